@@ -296,6 +296,215 @@ theorem step_total (o : Ops) (s : MSt) (e : MEv) (hm : Modelled s.c e) : ∃ s',
   | data t => exact ⟨_, rfl⟩
   | ns p u => exact ⟨_, rfl⟩
 
+/-! ### an open text construct always has content parameters -/
+
+def CpInv (c : Core) : Prop := c.incontent = true → c.cp.isSome = true
+
+theorem cpInv_init : CpInv {} := by intro h; cases h
+
+theorem startExt_cp (s : Core) (kind : Str) (a : List (Str × Str)) (c' : Core) (es : List Elem)
+    (h : startExt s kind a = .ok (c', es)) : c'.cp.isSome = true := by
+  unfold startExt at h
+  simp only at h
+  have L : ∀ (s0 : Core) k ty e, startContentL s0 k a ty e = .ok (c', es) → c'.cp.isSome = true := by
+    intro s0 k ty e hh
+    rw [(startContentL_ok _ _ _ _ _ _ _ hh).1]; rfl
+  have E : ∀ (s0 : Core), startContentElem s0 a = .ok (c', es) → c'.cp.isSome = true := by
+    intro s0 hh
+    rw [(startContentElem_ok _ _ _ _ hh).1]; rfl
+  split at h
+  · split at h
+    · exact E _ h
+    · exact L _ _ _ _ h
+  · split at h
+    · exact L _ _ _ _ h
+    · split at h
+      · split at h
+        · exact E _ h
+        · exact L _ _ _ _ h
+      · split at h
+        · exact E _ h
+        · split at h
+          · exact L _ _ _ _ h
+          · cases h
+
+theorem dispatch_cpInv (c : Core) (hn : Str) (attrsD : List (Str × Str)) (c' : Core) (pe : Option Elem)
+    (hc : c.incontent = false) (hd : dispatchCore c hn attrsD = .ok (c', pe)) : CpInv c' := by
+  unfold dispatchCore at hd
+  have keep : ∀ d : Core, d.incontent = false → CpInv d := by intro d hd hi; rw [hd] at hi; cases hi
+  split at hd
+  · injection hd with hd
+    split at hd <;> (injection hd with h1 _; rw [← h1]; exact keep _ hc)
+  · split at hd
+    · split at hd
+      · cases hd
+      · split at hd
+        · injection hd with hd; injection hd with h1 _; rw [← h1]; exact keep _ hc
+        · split at hd
+          · injection hd with hd
+            split at hd <;> (injection hd with h1 _; rw [← h1]; exact keep _ hc)
+          · simp only at hd
+            injection hd with hd; injection hd with h1 _
+            rw [← h1]
+            split
+            · split
+              · exact keep _ hc
+              · apply keep; unfold setContext; split <;> exact hc
+            · exact keep _ hc
+    · split at hd
+      · injection hd with hd; injection hd with h1 _; rw [← h1]; exact keep _ hc
+      · split at hd
+        · rw [(startContent_ok _ _ _ _ _ _ _ hd).1]; exact fun _ => rfl
+        · split at hd
+          · rw [(startContent_ok _ _ _ _ _ _ _ hd).1]; exact fun _ => rfl
+          · split at hd
+            · cases hd
+            · simp only at hd
+              split at hd
+              · injection hd with hd; injection hd with h1 _; rw [← h1]; exact keep _ hc
+              · injection hd with hd; injection hd with h1 _; rw [← h1]
+                apply keep; unfold setContext; split <;> exact hc
+
+theorem pop_incontent (o : Ops) (s : MSt) (el : Str) : (pop o s el).c.incontent = s.c.incontent := by
+  unfold pop
+  split
+  · rfl
+  · split
+    · rfl
+    · simp only
+      split
+      · rfl
+      · split
+        · rfl
+        · split
+          · rfl
+          · split <;> rfl
+
+theorem step_cpInv (o : Ops) (s : MSt) (e : MEv) (s' : MSt) (h : CpInv s.c) (hs : mstep o s e = .ok s') : CpInv s'.c := by
+  have keep : ∀ d : Core, d.incontent = false → CpInv d := by intro d hd hi; rw [hd] at hi; cases hi
+  cases e with
+  | start tag attrs =>
+    simp only [mstep, startTag] at hs
+    split at hs
+    · cases hs
+    rename_i hnc
+    have hnc' : s.c.incontent = false := by simpa using hnc
+    simp only [startTag0] at hs
+    have hpi : (startPre o s.c tag attrs).1.incontent = false := by
+      have key : (startPre o s.c tag attrs).1.incontent = s.c.incontent := by
+        unfold startPre
+        simp only
+        have hf : ∀ (l : List (Str × Str)) (c : Core), (l.foldl (fun st kv =>
+            if (S "xmlns:").isPrefixOf kv.1 then trackNamespace st (some (kv.1.drop 6)) kv.2
+            else if kv.1 == S "xmlns" then trackNamespace st none kv.2 else st) c).incontent = c.incontent := by
+          intro l
+          induction l with
+          | nil => intro c; rfl
+          | cons a rest ih =>
+            intro c
+            simp only [List.foldl_cons]
+            have ht : ∀ p u, (trackNamespace c p u).incontent = c.incontent := by
+              intro p u; unfold trackNamespace; simp only; split <;> rfl
+            split
+            · rw [ih, ht]
+            · split
+              · rw [ih, ht]
+              · rw [ih]
+        split
+        · split <;> rw [hf]
+        · rw [hf]
+      rw [key]; exact hnc'
+    cases hx : extKind (handlerName (startPre o s.c tag attrs).1 tag) with
+    | some kind =>
+      rw [hx] at hs
+      simp only at hs
+      cases hr : startExt (startPre o s.c tag attrs).1 kind (startPre o s.c tag attrs).2 with
+      | error w => rw [hr] at hs; simp [applyExt] at hs
+      | ok r =>
+        obtain ⟨c', es⟩ := r
+        rw [hr] at hs
+        simp only [applyExt, Outcome.ok.injEq] at hs
+        rw [← hs]
+        exact fun _ => startExt_cp _ _ _ _ _ hr
+    | none =>
+      rw [hx] at hs
+      simp only at hs
+      cases hd : dispatchCore (startPre o s.c tag attrs).1 (handlerName (startPre o s.c tag attrs).1 tag) (startPre o s.c tag attrs).2 with
+      | error w => rw [hd] at hs; simp [applyDispatch] at hs
+      | ok r =>
+        obtain ⟨c', pe⟩ := r
+        have := dispatch_cpInv _ _ _ c' pe hpi hd
+        rw [hd] at hs
+        cases pe with
+        | none => simp only [applyDispatch, Outcome.ok.injEq] at hs; rw [← hs]; exact this
+        | some el => simp only [applyDispatch, Outcome.ok.injEq] at hs; rw [← hs]; exact this
+  | stop tag =>
+    simp only [mstep, endTag] at hs
+    split at hs
+    · split at hs
+      · rename_i kind _
+        rw [endExt_ok o s s' kind hs]
+        apply keep
+        exact (endExtCore_frame o s kind).2.2.2.1
+      · obtain ⟨k, top, rest, _, _, _, hs'⟩ := endContent_ok o s s' _ hs
+        rw [hs']
+        apply keep
+        have ha := afterTitle_frame k (popContent o s k)
+        simp only [endFinish, ha.2.2.2.2.2.2.2.2.2.1]
+        rfl
+    rename_i hnc
+    have hnc' : s.c.incontent = false := by simpa using hnc
+    split at hs
+    · cases hs
+    simp only [endTag0] at hs
+    split at hs
+    · injection hs with hs; rw [← hs]; exact keep _ hnc'
+    · split at hs
+      · injection hs with hs; rw [← hs]; apply keep; simp only [endFinish]; rw [pop_incontent]; exact hnc'
+      · split at hs
+        · injection hs with hs; rw [← hs]; apply keep
+          simp only [endFinish]
+          unfold setContext
+          split <;> (simp only; rw [pop_incontent]; exact hnc')
+        · split at hs
+          · cases hs
+          · injection hs with hs; rw [← hs]; apply keep; simp only [endFinish]; rw [pop_incontent]; exact hnc'
+  | data t =>
+    simp only [mstep] at hs
+    injection hs with hs
+    rw [← hs]
+    unfold handleData
+    split <;> exact h
+  | ns p u =>
+    simp only [mstep] at hs
+    injection hs with hs
+    rw [← hs]
+    intro hi
+    have ht : (trackNamespace s.c p u).incontent = s.c.incontent ∧ (trackNamespace s.c p u).cp = s.c.cp := by
+      unfold trackNamespace; simp only; split <;> exact ⟨rfl, rfl⟩
+    simp only at hi ⊢
+    rw [ht.2]; rw [ht.1] at hi
+    exact h hi
+
+/-- **An open text construct always has content parameters**: in every state reachable from the initial one — over every event sequence in
+the model's domain — `incontent` implies that `contentparams` is non-empty.  So `_end_content`'s `self.contentparams.get("type")` is never
+`None` there (no AttributeError inside the handler), and the totalised branch of `copyToSummary` is never taken. -/
+theorem content_has_params (o : Ops) (evs : List MEv) : ∀ s s', CpInv s.c → mrun o s evs = .ok s' → CpInv s'.c := by
+  induction evs with
+  | nil => intro s s' h hr; simp only [mrun] at hr; injection hr with hr; rw [← hr]; exact h
+  | cons e rest ih =>
+    intro s s' h hr
+    simp only [mrun] at hr
+    split at hr
+    · rename_i s1 hs1
+      exact ih s1 s' (step_cpInv o s e s1 h hs1) hr
+    · cases hr
+
+/-- non-vacuity: after `<title>` the invariant's premise holds and so does its conclusion -/
+example : (match mrun looseOps { c := { infeed := true } } [.start (S "title") []] with
+    | .ok s => s.c.incontent && s.c.cp.isSome
+    | .unmodelled _ => false) = true := by decide +kernel
+
 /-- stray end tags on an EMPTY element stack, data outside every element: concrete totality -/
 example : (match mrun looseOps {} [.stop (S "item"), .stop (S "x:y"), .data (S "t"), .stop (S "channel"), .start (S "item") [], .stop (S "item"), .stop (S "item")] with
     | .ok s => s.c.entries.length == 1 && !s.c.inentry && s.stack.isEmpty
